@@ -330,6 +330,7 @@ def main(tier, seed):
     import c19
     acc.merge(core.pmap(reader_worker, c19.inband_jobs(tier), chunksize=2))
     acc.merge(core.pmap(mixed_decoder_worker, mixed_decoder_jobs()))
+    acc.merge(core.pmap(behind_worker, behind_jobs()))
     rule = ('BFS over histories of channel operations (write sizes around packet/window '
             'limits, writelines, write_eof, pause/resume) and packet deliveries on a real '
             'client<->server pair; a state is distinct by its canonical form (channel '
@@ -337,7 +338,8 @@ def main(tier, seed):
             'queued wire packets); from every new state the run is drained and compared '
             'with the FIFO stream model; plus the stream-reader harness: a handler reading stdin with 10 call menus '
             'while chunks are interleaved with signals, breaks and size changes, every interleaving of deliveries and '
-            'reader calls within the deviation bound: the data read, concatenated, equals the data sent, events in place')
+            'reader calls within the deviation bound: the data read, concatenated, equals the data sent, events in place; a reader '
+            '0..29 deliveries behind a finished sender (7 output sizes around the window) then read() to EOF on both streams')
     return core.finish(PROP, tier, seed, 'model_checking', acc, t0, rule,
                        {'depth': depth, 'deeper': {c['name']: c['bfs_depth'] for c in cfgs if 'bfs_depth' in c}, 'max_states_per_cfg': max_states,
                         'configs': [c['name'] for c in cfgs]},
@@ -429,6 +431,26 @@ def mixed_decoder_worker(job):
     return acc
 
 
+def behind_worker(job):
+    """a reader that has fallen a whole window (and more) behind: the sender wrote n bytes on two streams and
+    exited, nothing was read for k deliveries (stream buffer full, channel paused, the rest parked in the channel),
+    then read() to end of file on both streams: each returns everything that was written, once, in order
+    (harness shared with C09: c09.late_wait_case)"""
+    import c09
+    acc = core.Acc()
+    for n, k in job:
+        obs = c09.late_wait_case(n, k, 'read-all')
+        acc.add(core.digest(('behind', n, k)), transitions=obs['steps'] + 1)
+        for kind, detail in obs['viol']:
+            acc.violation('order:%s:reader-behind' % kind, '%s ; n=%d k=%d' % (detail, n, k), {'kind': 'behind', 'n': n, 'k': k})
+    return acc
+
+
+def behind_jobs():
+    cases = [(n, k) for n in (10, 63, 64, 65, 129, 200, 400) for k in range(0, 30)]
+    return [cases[i::8] for i in range(8)]
+
+
 def mixed_decoder_jobs():
     orders = sorted(set(itertools.permutations([0, 0, 0, 1, 1, 1])))
     cases = [(o, enc) for o in orders for enc in ('utf-8', 'utf-16-le')]
@@ -447,6 +469,13 @@ def replay(rep):
     if rep['replay'].get('kind') == 'mixed-decoder':
         v = mixed_decoder_case(tuple(rep['replay']['order']), rep['replay']['enc'])
         print(json.dumps(v, indent=1))
+        if v:
+            print('VIOLATION property=%s replay=(given)' % PROP)
+            return 1
+        return 0
+    if rep['replay'].get('kind') == 'behind':
+        v = behind_worker([(rep['replay']['n'], rep['replay']['k'])]).violations
+        print(json.dumps(v, indent=1, default=repr))
         if v:
             print('VIOLATION property=%s replay=(given)' % PROP)
             return 1
